@@ -504,6 +504,9 @@ struct FsModel {
     out: String,
 }
 
+/// what scenarios write: text with and without line ends, empty lines in the middle, CRLF, nothing
+const IO_TEXTS: &[&str] = &["hello\n", "ünï", "", "line1\nline2\r\nlast", "x", "\n", "a\n\nb\n", "\r\nz", "\n\n"];
+
 fn io_scenario(t: &mut Tape) -> Vec<IoOp> {
     let n = 3 + t.below(9);
     let mut ops = vec![];
@@ -514,7 +517,7 @@ fn io_scenario(t: &mut Tape) -> Vec<IoOp> {
         let rs = t.below(2);
         ops.push(if t.flag() { IoOp::Create(p, ws) } else { IoOp::Append(p, ws) });
         for _ in 0..1 + t.below(3) {
-            ops.push(IoOp::Write(ws, ["hello\n", "ünï", "", "line1\nline2\r\nlast", "x"][t.below(5)].to_string()));
+            ops.push(IoOp::Write(ws, IO_TEXTS[t.below(IO_TEXTS.len())].to_string()));
         }
         if t.flag() {
             ops.push(IoOp::Flush(ws));
@@ -522,8 +525,8 @@ fn io_scenario(t: &mut Tape) -> Vec<IoOp> {
         ops.push(IoOp::CloseW(ws));
         ops.push(IoOp::Open(p, rs));
         for _ in 0..1 + t.below(4) {
-            ops.push(match t.below(3) {
-                | 0 => IoOp::ReadLine(rs),
+            ops.push(match t.below(4) {
+                | 0 | 3 => IoOp::ReadLine(rs),
                 | 1 => IoOp::Read(rs, [0i128, 1, 3, 100, -1][t.below(5)]),
                 | _ => IoOp::ReadAll(rs),
             });
@@ -539,7 +542,7 @@ fn io_scenario(t: &mut Tape) -> Vec<IoOp> {
         ops.push(match t.below(10) {
             | 0 => IoOp::Create(p, slot),
             | 1 => IoOp::Append(p, slot),
-            | 2 | 3 => IoOp::Write(slot, ["hello\n", "ünï", "", "line1\nline2\r\nlast", "x"][t.below(5)].to_string()),
+            | 2 | 3 => IoOp::Write(slot, IO_TEXTS[t.below(IO_TEXTS.len())].to_string()),
             | 4 => IoOp::Flush(slot),
             | 5 => IoOp::CloseW(slot),
             | 6 => IoOp::Open(p, slot),
